@@ -312,6 +312,9 @@ def run(chk: Check) -> None:
     from . import c20_adapters
 
     c20_adapters.run(chk)
+    from . import c20_datagram
+
+    c20_datagram.run(chk)
     chk.assumptions += [
         "the asyncio selector transport calls pause_writing()/resume_writing() according to its buffer limits (CPython); "
         "the library forces the stream limits to 0 so that 'not paused' means 'user-space buffer empty'",
